@@ -35,12 +35,12 @@ type Exec struct {
 	drained  bool // last drain observed lower level == model_n (and nothing since)
 	collOpen bool
 
-	probes   map[string]bool
-	events   evlog
-	handles  []*handle
-	copies   []copyRec
-	history  []*Node // C12: contents per persistence round since the last compaction
-	shapes   map[string]bool
+	probes          map[string]bool
+	events          evlog
+	handles         []*handle
+	copies          []copyRec
+	history         []*Node // C12: contents per persistence round since the last compaction
+	shapes          map[string]bool
 	lastCompactions uint64
 	lastPartial     uint64
 	histCompactions uint64
@@ -50,7 +50,7 @@ type Exec struct {
 
 	md *multiState
 
-	noRoundChecks bool
+	noRoundChecks  bool
 	storeSurelyAll bool
 	storeMaybeAll  bool
 
@@ -208,13 +208,17 @@ func (e *Exec) nonTrivial() bool {
 	return e.out.Probes["bg-step-between-ops"] > 0 && (e.out.Probes["multi-section-compare"] > 0 || e.fs.FaultSeen > 0 || e.out.Images > 0 || e.out.Probes["concurrent-overlap"] > 0)
 }
 
+//go:norace
 func (e *Exec) probe(name string) { e.out.Probes[name]++ }
 
 // fail records the first violation and aborts the run.
+//
+//go:norace
 func (e *Exec) fail(class, format string, a ...interface{}) {
 	e.failD(class, nil, format, a...)
 }
 
+//go:norace
 func (e *Exec) failD(class string, extra map[string]string, format string, a ...interface{}) {
 	if e.viol == nil {
 		e.viol = &Violation{Prop: e.c.Prop, Class: class, Msg: fmt.Sprintf(format, a...), OpIdx: e.opIdx, Detail: e.detail(extra)}
@@ -223,6 +227,8 @@ func (e *Exec) failD(class string, extra map[string]string, format string, a ...
 }
 
 // detail collects trigger facts of the history so far (known-finding matching).
+//
+//go:norace
 func (e *Exec) detail(extra map[string]string) map[string]string {
 	d := map[string]string{
 		"backing":        e.opts.Backing,
@@ -455,6 +461,7 @@ func (e *Exec) closeStore() {
 // ---------------------------------------------------------------------------
 // callbacks (run in moss's own tasks)
 
+//go:norace
 func (e *Exec) onEvent(ev moss.Event) {
 	switch ev.Kind {
 	case moss.EventKindPersisterProgress:
@@ -467,6 +474,7 @@ func (e *Exec) onEvent(ev moss.Event) {
 	simrt.Yield(siteCallback)
 }
 
+//go:norace
 func (e *Exec) onError(err error) {
 	e.events.errors = append(e.events.errors, err.Error())
 	simrt.Note("onerror", uint64(len(e.events.errors)))
@@ -695,6 +703,7 @@ func (e *Exec) verifyMode(on bool) {
 	}
 }
 
+//go:norace
 func (e *Exec) noteShape() {
 	if !e.collOpen {
 		return
